@@ -688,9 +688,61 @@ def probe_validate(repo, work, doc):
     return n, dis
 
 
+MARK = {(True, True): "String", (True, False): "std::cell::Cell<u8>", (False, True): "std::sync::MutexGuard<'static, u8>", (False, False): "std::rc::Rc<u8>"}
+HANDLE_TY = {
+    "ElementRef": "ElementRef<'static, {tr}, {m}>", "ElementMut": "ElementMut<'static, {tr}, {m}>", "Element (drained / spliced-out item)": "Element<'static, {tr}, {m}>",
+    "&Element": "&'static Element<'static, {tr}, {m}>", "IterRef": "IterRef<'static, {tr}, {m}>", "IterMut": "IterMut<'static, {tr}, {m}>",
+    "Pop handle": "Pop<'static, {tr}, {m}>", "Remove handle": "Remove<'static, {tr}, {m}>", "SwapRemove handle": "SwapRemove<'static, {tr}, {m}>", "Drain": "Drain<'static, {tr}, {m}>",
+    "&AnyVec": "&'static AnyVec<{tr}, {m}>", "&mut AnyVec": "&'static mut AnyVec<{tr}, {m}>",
+    "AnyVecRef<T>": "AnyVecRef<'static, {t}, {m}>", "AnyVecMut<T>": "AnyVecMut<'static, {t}, {m}>",
+}
+
+
 def probe_replay(repo, work, label, model):
-    """replay of a sat model: the same configuration instantiated with marker types and compiled"""
-    return None
+    """Replay of a sat model against the real compiler: the contradicting configuration is instantiated with marker
+    element / backend types (a backend type per Send/Sync flag combination) and rustc's own verdicts are printed.
+    Returns a dict of facts, or None when the obligation kind has no probe template."""
+    m = re.match(r"(.+?) of AnyVec<dyn (.+?), M>: (Send|Sync) only if", label) or re.match(r"(AnyVecRef<T>|AnyVecMut<T>|typed Drain.*?): (Send|Sync) only if", label)
+    if not m:
+        return None
+    if len(m.groups()) == 3:
+        hname, sname, trait = m.group(1), m.group(2), m.group(3)
+    else:
+        hname, sname, trait = m.group(1), "None", m.group(2)
+    if hname not in HANDLE_TY:
+        return None
+    g = lambda k: bool(model.get(k, True))
+    work = Path(work) / "probe_replay"
+    if work.exists():
+        shutil.rmtree(work)
+    (work / "src").mkdir(parents=True)
+    (work / "Cargo.toml").write_text('[package]\nname = "probe"\nversion = "0.0.0"\nedition = "2021"\n[dependencies]\nany_vec = { path = "%s" }\nimpls = "1"\n[workspace]\n' % repo)
+    tparams = dict(tr="dyn " + sname, m="MB", t=MARK[(g("T_send"), g("T_sync"))])
+    hty = HANDLE_TY[hname].format(**tparams)
+    src = """use any_vec::*; use any_vec::traits::*; use any_vec::mem::*; use any_vec::element::*; use any_vec::ops::*; use impls::impls; use core::marker::PhantomData; use core::alloc::Layout;
+#[derive(Clone, Default)] struct MB(PhantomData<%s>);
+struct MBMem(PhantomData<%s>, Layout);
+impl MemBuilder for MB { type Mem = MBMem; fn build(&mut self, l: Layout) -> MBMem { MBMem(PhantomData, l) } }
+impl Mem for MBMem { fn as_ptr(&self) -> *const u8 { core::ptr::null() } fn as_mut_ptr(&mut self) -> *mut u8 { core::ptr::null_mut() } fn element_layout(&self) -> Layout { self.1 } fn size(&self) -> usize { 0 } }
+fn main() {
+    println!("handle_%s={}", impls!(%s: %s));
+    println!("vec_send={}", impls!(AnyVec<%s, MB>: Send));
+    println!("vec_sync={}", impls!(AnyVec<%s, MB>: Sync));
+    println!("m_send={} m_sync={} mem_send={} mem_sync={}", impls!(MB: Send), impls!(MB: Sync), impls!(MBMem: Send), impls!(MBMem: Sync));
+}
+""" % (MARK[(g("M_send"), g("M_sync"))], MARK[(g("Mem_send"), g("Mem_sync"))], trait, hty, trait, tparams["tr"], tparams["tr"])
+    (work / "src" / "main.rs").write_text(src)
+    p = subprocess.run(["cargo", "run", "--offline", "-q", "--target-dir", str(work / "target")], cwd=work, env=ENV, stdout=subprocess.PIPE, stderr=subprocess.PIPE, text=True)
+    facts = {"probe_type": hty, "trait": trait}
+    if p.returncode != 0:
+        facts["error"] = p.stderr[-300:]
+    else:
+        for tok in p.stdout.split():
+            if "=" in tok:
+                k, v = tok.split("=", 1)
+                facts[k] = (v == "true")
+    shutil.rmtree(work, ignore_errors=True)
+    return facts
 
 
 def part(prop):
@@ -734,11 +786,20 @@ def part(prop):
                         continue
                     (verif / "replays").mkdir(exist_ok=True)
                     rp = verif / "replays" / ("%s-traitsmt-%d.json" % (prop, abs(hash(label)) % 1000000))
-                    rp.write_text(json.dumps({"obligation": label, "configuration": cfg, "formula": formula}, indent=1))
+                    facts = probe_replay(repo, Path(work) / "traitsmt", label, model) if rep["violations"] < 3 else None
+                    rp.write_text(json.dumps({"obligation": label, "configuration": cfg, "formula": formula, "rustc_probe": facts}, indent=1))
+                    if facts is not None and "error" not in facts:
+                        need = "vec_sync" if ("shared" in label or "Sync only" in label or "AnyVecRef" in label) else "vec_send"
+                        hk = [k for k in facts if k.startswith("handle_")][0]
+                        if not (facts[hk] and not facts.get(need, False)) and "of AnyVec<" in label:
+                            rep["inconclusive"] += 1
+                            rep["lines"].append("INCONCLUSIVE property=%s traitsmt: solver model for `%s` did not reproduce with rustc (%s): the encoder is suspect" % (prop, label, json.dumps(facts)))
+                            continue
                     rep["violations"] += 1
                     rep["lines"].append("VIOLATION property=%s replay=%s" % (prop, rp))
                     rep["lines"].append("  traitsmt: %s" % label)
                     rep["lines"].append("  contradicting configuration: %s" % json.dumps(cfg))
+                    rep["lines"].append("  rustc on a probe program instantiating it: %s" % (json.dumps(facts) if facts is not None else "(no probe template for this obligation kind)"))
                 else:
                     rep["inconclusive"] += 1
                     rep["lines"].append("INCONCLUSIVE property=%s traitsmt solver: %s on `%s`" % (prop, str(model)[:120], label))
